@@ -329,6 +329,30 @@ func (s *scope) blockFacts(pr *proof, blk *ssa.BasicBlock) {
 	ff := s.b.p.Facts(s.fn)
 	for _, f := range ff.NC(blk) {
 		s.factCons(pr, f)
+		// a merged boolean (x := a && b; switch { case a && b: ... }): one case per way it can
+		// have got its value
+		if phi, isPhi := f.Cond.(*ssa.Phi); isPhi && isBoolType(phi.Type()) {
+			key := fmt.Sprintf("flag:%s%p/%v", s.prefix, phi, f.Pol)
+			if !pr.seenSp[key] {
+				alts := ff.Alternatives([]Fact{f}, 0)
+				if len(alts) > 0 && !(len(alts) == 1 && len(alts[0]) == 1 && alts[0][0] == f) {
+					var cases [][]Cons
+					for _, alt := range alts {
+						sub := s.b.newProof()
+						sub.atoms, sub.done, sub.seenSp, sub.errNil, sub.errNon = pr.atoms, pr.done, pr.seenSp, pr.errNil, pr.errNon
+						sub.queue = nil
+						for _, g := range alt {
+							// disequalities inside a case become splits of sub, which are
+							// dropped: that only weakens the case (sound)
+							s.factCons(sub, g)
+						}
+						cases = append(cases, sub.cons)
+						pr.queue = append(pr.queue, sub.queue...)
+					}
+					pr.addSplit(key, cases)
+				}
+			}
+		}
 		if x, isNil, ok := FactNilCmp(f); ok {
 			if c, idx := callOf(unspill(x)); c != nil {
 				if s.onPath && isErrorType(x.Type()) {
